@@ -294,6 +294,50 @@ def _fold_none(t, q):
     return tuple(_fold_none(x, q) for x in t)
 
 
+def options_reach_owned_quantizers(ctx, rule: str):
+    """Every searchable quantizer is configured by the layer that OWNS it: a layer forwards the
+    sampling options to each precision-selecting quantizer it was constructed with (output
+    activations, weights).  Its input quantizer is the producer's output quantizer (an alias
+    installed by the graph pass): configuring that one instead leaves the layer's own output
+    quantizer -- the input quantizer of whatever consumes the layer -- with the old options."""
+    repo = ctx.repo
+    from .c10 import mps_layer_classes
+    n = 0
+    for ci in mps_layer_classes(ctx):
+        init = ci.methods.get('__init__')
+        upd = repo.find_method(ci, 'update_softmax_options')
+        if init is None or upd is None:
+            continue
+        owned = set()
+        ann = {a.arg: ast.unparse(a.annotation) for a in init.node.args.args
+               if a.annotation is not None}
+        for p in returning(paths(repo, init)):
+            for e in p.events:
+                if e.kind == 'setattr' and e.data[0] == SELF and e.data[2][0] == 'param' and \
+                        ('MPSPerLayerQtz' in ann.get(e.data[2][1], '') or
+                         'MPSPerChannelQtz' in ann.get(e.data[2][1], '')):
+                    owned.add(e.data[1])
+        if not owned:
+            continue
+        n += 1
+        recv = set()
+        for p in paths(repo, upd):
+            for e in p.calls():
+                mc = method_call(e.data[0])
+                if mc and mc[1] == 'update_softmax_options' and mc[0][0] == 'attr' and \
+                        mc[0][1] == SELF:
+                    recv.add(mc[0][2])
+        missing = sorted(owned - recv)
+        ctx.ob(rule, f'{ci.name}.update_softmax_options configures the quantizers it owns',
+               not missing,
+               f'forwards to {sorted(recv)}' if not missing else
+               f'the layer owns {sorted(owned)} but forwards the options to {sorted(recv)} only: '
+               f'{missing} keeps the previous options (soft instead of hard sampling), so the '
+               f'layer that consumes this tensor is charged a mixture over input precisions, not '
+               f'the cost of the precision summary() reports', where(upd))
+    ctx.floor(rule, 'MPS layers with owned quantizers', n, 3)
+
+
 def option_defaults_rule(ctx, rule: str):
     """'Changing one sampling option leaves the unspecified ones as they were': None is the
     library's 'not specified' value (every store is guarded by ``is not None``), so every
@@ -664,6 +708,7 @@ def run(ctx):
     r11e(ctx)
     r11f(ctx)
     option_defaults_rule(ctx, 'R11c')
+    options_reach_owned_quantizers(ctx, 'R11d')
     # which masks are frozen by construction is decided where the maskers are created: the
     # selection rule of C08 (frozen class chosen exactly for width groups that touch a graph
     # input / output / output-connected node, each test over EVERY node of the group, and for
